@@ -50,7 +50,35 @@ fn child(args: &[String]) -> i32 {
         let mut rng = case_rng(seed, idx);
         let mut it = Interner::new();
         let parity: Option<(String, PCase)> = if idx < probes.len() { Some((probes[idx].0.to_string(), probes[idx].1.clone())) }
-            else { match rng.below(20) { 0..=9 => Some(("parity".into(), gen_pcase(&mut rng))), 10..=11 => Some(("parity-module".into(), module_case(&mut rng))), _ => None } };
+            else { match rng.below(20) { 0..=8 => Some(("parity".into(), gen_pcase(&mut rng))), 9..=10 => Some(("parity-module".into(), module_case(&mut rng))), _ => None } };
+        if parity.is_none() && idx >= probes.len() && rng.below(9) < 2 {
+            // pending per-scan inputs on one scanner, every scanning entry point
+            let kind = "pending-inputs".to_string();
+            emit(format!("B\t{}\t{}\t{{\"seed\":{}}}", idx, kind, seed));
+            unsafe {
+                let src = cs("rule clear_slot { condition: true }");
+                let mut tmp: *mut YRX_RULES = null_mut();
+                yrx_compile(src.as_ptr(), &mut tmp);
+                yrx_rules_destroy(tmp);
+            }
+            let mut rec = Rec::new(0);
+            let dir = inc.clone().unwrap_or_else(|| ".".into());
+            let (psteps, pairs, trace) = unsafe { run_pending(&mut rng, &mut rec, &dir, idx) };
+            for t in &trace { emit(format!("P\t{}", t)); }
+            let coq_pairs: Vec<String> = pairs.iter().map(|(c, r)| format!("({}, {})", coq_dump(c, &mut it), coq_dump(r, &mut it))).collect();
+            let evs = rec.evs.iter().map(|e| coq_ev(e, &mut it)).collect::<Vec<_>>().join("; ");
+            let coq = format!("mkCase [{}] false [{}] [{}]", evs, coq_pairs.join("; "), psteps.join("; "));
+            let json = format!("{{\"index\":{},\"seed\":{},\"kind\":{},\"steps\":[{}],\"c\":[{}],\"rust\":[{}],\"events\":[{}]}}", idx, seed, json_str(&kind),
+                trace.iter().map(|t| json_str(t)).collect::<Vec<_>>().join(","), pairs.iter().map(|p| json_dump(&p.0)).collect::<Vec<_>>().join(","),
+                pairs.iter().map(|p| json_dump(&p.1)).collect::<Vec<_>>().join(","), rec.evs.iter().map(json_ev).collect::<Vec<_>>().join(","));
+            let mut tags = vec![kind.clone()];
+            for t in &trace { if t.starts_with("Scan") || t.starts_with("Finish") { tags.push(format!("pending:{}", t.to_lowercase())); } }
+            if trace.iter().any(|t| t.contains("observed data=1") || t.contains("observed data=2")) { tags.push("pending:module-data-observed".into()); }
+            if pairs.iter().any(|(c, r)| c != r) { tags.push("pending:DUMPS-DIFFER".into()); }
+            let key = format!("{:x}", { use std::hash::{Hash, Hasher}; let mut h = std::collections::hash_map::DefaultHasher::new(); trace.hash(&mut h); h.finish() });
+            emit(format!("E\t{}\t{}\t{}\t{}\t{}", idx, coq, json, tags.join(","), key));
+            continue;
+        }
         if let Some((kind, mut c)) = parity {
             if !c.probes.is_empty() { c.inc_dir = inc.clone(); }
             let inputs = pcase_json(&c);
@@ -72,7 +100,7 @@ fn child(args: &[String]) -> i32 {
                 pairs.push(format!("({}, {})", coq_dump(cd.get(i).unwrap_or(&missing), &mut it), coq_dump(r.get(i).unwrap_or(&missing), &mut it)));
             }
             let evs = rec.evs.iter().map(|e| coq_ev(e, &mut it)).collect::<Vec<_>>().join("; ");
-            let coq = format!("mkCase [{}] false [{}]", evs, pairs.join("; "));
+            let coq = format!("mkCase [{}] false [{}] []", evs, pairs.join("; "));
             let json = format!("{{\"index\":{},\"seed\":{},\"kind\":{},\"inputs\":{},\"c\":[{}],\"rust\":[{}],\"events\":[{}]}}", idx, seed, json_str(&kind), inputs,
                 cd.iter().map(json_dump).collect::<Vec<_>>().join(","), r.iter().map(json_dump).collect::<Vec<_>>().join(","),
                 rec.evs.iter().map(json_ev).collect::<Vec<_>>().join(","));
@@ -101,7 +129,7 @@ fn child(args: &[String]) -> i32 {
             emit(format!("B\t{}\t{}\t{{\"mode\":{},\"ops\":{}}}", idx, kind, mode, n_ops));
             let mut trace: Vec<String> = vec![];
             let evs = run_plumbing(&mut rng, mode, n_ops, &mut |s| { emit(format!("P\t{}", s.replace(['\n', '\t'], " "))); trace.push(s); });
-            let coq = format!("mkCase [{}] false []", evs.iter().map(|e| coq_ev(e, &mut it)).collect::<Vec<_>>().join("; "));
+            let coq = format!("mkCase [{}] false [] []", evs.iter().map(|e| coq_ev(e, &mut it)).collect::<Vec<_>>().join("; "));
             let json = format!("{{\"index\":{},\"seed\":{},\"kind\":{},\"ops\":[{}],\"events\":[{}]}}", idx, seed, json_str(&kind),
                 trace.iter().filter(|t| !t.ends_with("...")).map(|t| json_str(t)).collect::<Vec<_>>().join(","), evs.iter().map(json_ev).collect::<Vec<_>>().join(","));
             let mut tags = vec![kind.clone()];
@@ -175,7 +203,7 @@ pub fn run(args: &[String]) -> i32 {
             stats.inc(&kind);
             let json = format!("{{\"index\":{},\"seed\":{},\"kind\":{},\"crashed\":true,\"exit\":{},\"inputs\":{},\"trace\":[{}]}}", idx, seed, json_str(&kind), json_str(&status),
                 if inputs.starts_with('{') { inputs.clone() } else { json_str(&inputs) }, trace.iter().map(|t| json_str(t)).collect::<Vec<_>>().join(","));
-            shards.push("mkCase [] true []".to_string(), json);
+            shards.push("mkCase [] true [] []".to_string(), json);
             next = idx + 1;
         } else if next == start {
             eprintln!("c19: child made no progress from case {} (exit {})", next, status);
